@@ -550,6 +550,35 @@ S_CORPUS = [
 ]
 
 
+# canonical replays of the known findings (must keep failing until repaired)
+KNOWN_PROGRAMS = [
+    "int (*fp)(int, int);",                  # C15-K1
+    'const char *s = R"(a\\nb)";',           # C15-K2
+]
+
+
+def shape_probe(ck, db, hs):
+    """model-only: every generated C expression that the parser accepts must satisfy the hypothesis
+    of C15_print_parse_tokens (CShape), and then the printed tokens are the input tokens"""
+    ops = [["K " + o[2:]] for h in hs for o in h if o.startswith("E ")]
+    if not ops or db is None:
+        return
+    out = ck.run_model(db, ops)
+    acc = shaped = 0
+    for op, o in zip(ops, out):
+        r = o[-1] if o else ""
+        if "parse=ok" in r:
+            acc += 1
+            if "shape=1" in r:
+                shaped += 1
+                if "printeq=1" not in r:
+                    ck.problems.append(("proof", "C15_print_parse_tokens is contradicted by the model on: " + op[0]))
+            else:
+                ck.problems.append(("tie", "an accepted C expression is outside CShape (hypothesis of C15_print_parse_tokens): " + op[0]))
+    ck.cov["counters"]["accepted_expressions_probed"] = acc
+    ck.cov["counters"]["accepted_expressions_in_CShape"] = shaped
+
+
 def main(argv):
     ck = Check("C15", argv)
     ck.rule = ("token sequences from a C expression grammar (all operators of every precedence level, prefix/postfix chains incl. the "
@@ -577,8 +606,9 @@ def main(argv):
     hs = CORPUS + [gen_history(ck.rng) for _ in range(n)]
     ck.correspond(hb, db, hs, label="expr", ubsan_is_violation=UBRE, timeout=600, env=ENV,
                   nontrivial=lambda h, obs: any(o.startswith("ok ") for o in obs))
+    shape_probe(ck, db, hs)
     if hb:
-        progs = S_CORPUS + [gen_program(ck.rng) for _ in range(200 if quick else 20000)]
+        progs = S_CORPUS + KNOWN_PROGRAMS + [gen_program(ck.rng) for _ in range(200 if quick else 20000)]
         run_programs(ck, hb, progs)
         semantic_oracle(ck, hb, 300 if quick else 6000)
     ck.finish(META["level_text"])
